@@ -39,7 +39,7 @@ def main():
                 viol = [l for l in out.splitlines() if l.startswith('VIOLATION')]
                 return p, rc, viol
             caught = {}
-            with concurrent.futures.ThreadPoolExecutor(max_workers=5) as ex:
+            with concurrent.futures.ThreadPoolExecutor(max_workers=2) as ex:
                 for p, rc, viol in ex.map(run, props):
                     if rc == 1 and viol:
                         v = viol[0]
